@@ -1621,6 +1621,18 @@ impl Scenario for C16 {
     fn nontrivial(plan: &Plan) -> bool {
         plan.ops.iter().any(|o| matches!(o, Op::Restart { .. }))
     }
+    fn label(plan: &Plan) -> String {
+        match &plan.obj {
+            ObjSpec::Number { .. } => "life:number",
+            ObjSpec::Cal(_) => "life:Cal",
+            ObjSpec::Union(_) => "life:UnionCal",
+            ObjSpec::Named(_) => "life:NamedCal",
+            ObjSpec::Curve { .. } => "life:Curve",
+            ObjSpec::Fx(_) => "life:FXRates",
+            ObjSpec::Spline { .. } => "life:PPSpline",
+        }
+        .into()
+    }
     fn rule() -> String {
         "one evaluation = one seeded object life (Dual/Dual2 with a storage-sharing partner; Cal; UnionCal; NamedCal; CurveDF x 5 rules and the Python-facing Curve with Cal/UnionCal/NamedCal calendars; FXRates with the C10 history alphabet; PPSpline f64/Dual/Dual2 unsolved, solved, re-solved, with refused solves) run on twin objects, with 1-6 crash-and-restart events (save -> drop every handle -> load; media JSON, tagged JSON, bincode) injected at seeded points including immediately after construction, after a refused operation, and back-to-back. After each restart: load succeeds, B == A, the type's whole query suite is bit-identical, re-saved bytes equal the loaded bytes; afterwards both twins receive the rest of the life and are compared after every step. Contents are drawn from a mixture dominated by uniformly random finite bit patterns. Distinct = distinct plan digest; non-trivial = the life contains at least one restart.".into()
     }
